@@ -633,7 +633,7 @@ class Simplify(Family):
     prelude = PRELUDE
 
     def counts(self, tier):
-        return 2000 if tier == "quick" else 40000
+        return 1500 if tier == "quick" else 15000
 
     def generate(self, rng, tier):
         for _ in range(self.counts(tier)):
@@ -672,7 +672,7 @@ class Small(Simplify):
     name = "small"
 
     def generate(self, rng, tier):
-        plan = [(5, 30), (6, 8), (8, 3)] if tier == "quick" else [(4, 150), (5, 150), (6, 100), (8, 60)]
+        plan = [(5, 24), (6, 6), (8, 2)] if tier == "quick" else [(4, 60), (5, 80), (6, 50), (8, 25)]
         for max_nodes, count in plan:
             for _ in range(count):
                 d = clean_desc(gen_ts.random_desc(rng, max_nodes=max_nodes, max_L=3, max_sites=3, max_muts=3))
